@@ -78,9 +78,6 @@ Proof.
         -- eapply sorted_weaken; [|exact H2]. exact H1.
 Qed.
 
-Lemma norm_range_ok r : fst (norm_range r) <= snd (norm_range r).
-Proof. destruct r as [s e]. cbn. destruct (N.ltb_spec e s); cbn; lia. Qed.
-
 Lemma in_insert_range x r l : In x (insert_range r l) -> x = r \/ In x l.
 Proof.
   induction l as [|y l IH]; cbn [insert_range]; intros H.
@@ -97,13 +94,20 @@ Proof.
   apply in_insert_range in H. destruct H as [->|H]; [left; reflexivity|right; apply IH; exact H].
 Qed.
 
-Theorem merge_ranges_mem c l : in_ranges c (merge_ranges l) = in_ranges c (map norm_range l).
+Lemma in_ranges_filter_nonempty c l : in_ranges c (filter nonempty_range l) = in_ranges c l.
+Proof.
+  induction l as [|[s e] l IH]; [reflexivity|]. cbn [filter]. unfold nonempty_range at 1. cbn [fst snd].
+  destruct (N.leb_spec s e); cbn [in_ranges]; rewrite IH; [reflexivity|].
+  destruct (N.leb_spec s c), (N.leb_spec c e); cbn; try reflexivity; lia.
+Qed.
+
+Theorem merge_ranges_mem c l : in_ranges c (merge_ranges l) = in_ranges c l.
 Proof.
   unfold merge_ranges. rewrite merge_acc_mem.
-  - cbn. apply in_ranges_sort.
+  - cbn. rewrite in_ranges_sort. apply in_ranges_filter_nonempty.
   - apply sort_sorted.
-  - intros s e H. apply in_sort_ranges in H. apply in_map_iff in H. destruct H as [r [E _]].
-    pose proof (norm_range_ok r) as N0. rewrite E in N0. exact N0.
+  - intros s e H. apply in_sort_ranges in H. apply filter_In in H. destruct H as [_ H].
+    unfold nonempty_range in H. cbn in H. apply N.leb_le. exact H.
 Qed.
 
 Lemma memN_filter c p l : memN c (filter p l) = memN c l && p c.
@@ -121,9 +125,9 @@ Theorem class_merge_spec singles ranges c :
 Proof.
   unfold class_mem, optimize_char_class. cbn [fst snd].
   rewrite memN_filter, merge_ranges_mem.
-  assert (E : in_ranges c (map norm_range ranges) = existsb (in_range_sym c) ranges).
-  { induction ranges as [|r rs IH]; [reflexivity|]. cbn [map existsb]. unfold in_range_sym at 1.
-    destruct (norm_range r) as [lo hi] eqn:En. cbn [in_ranges]. rewrite orb_false_r. f_equal. exact IH. }
+  assert (E : in_ranges c ranges = existsb (in_range_sym c) ranges).
+  { induction ranges as [|[lo hi] rs IH]; [reflexivity|]. cbn [existsb]. unfold in_range_sym at 1.
+    cbn [in_ranges]. rewrite orb_false_r. f_equal. exact IH. }
   rewrite E. destruct (memN c singles), (existsb _ _); reflexivity.
 Qed.
 
